@@ -202,7 +202,80 @@ func bigScene(r *rand.Rand, nv int, kinds []string) Desc {
 	return d
 }
 
-// GenRandom writes n seeded scene descriptors plus `big` threshold scenes.
+
+// pairScenes: for every member of a material (and of the textures it names) one
+// scene with two models whose materials differ in exactly that member, in both
+// orders, plus scenes with equal-by-value copies under different pointers.
+// They pin down what "equal by value" has to look at.
+func pairScenes() []Desc {
+	texs := []DTex{
+		{Uri: 1, Samp: 1, Xf: 0}, // 1 base colour
+		{Uri: 2, Samp: 2, Xf: 1}, // 2 metallic-roughness
+		{Uri: 3, Samp: 0, Xf: 0}, // 3 normal
+		{Uri: 1, Samp: 3, Xf: 2}, // 4 occlusion
+		{Uri: 2, Samp: 1, Xf: 0}, // 5 extension texture
+		{Uri: 1, Samp: 1, Xf: 0}, // 6 = 1 by value
+		{Uri: 1, Samp: 2, Xf: 0}, // 7 = 1 with another sampler
+		{Uri: 3, Samp: 1, Xf: 0}, // 8 = 1 with another image
+		{Uri: 1, Samp: 1, Xf: 3}, // 9 = 1 with a (required) transform
+		{Uri: 2, Samp: 1, Xf: 0}, // 10 = 5 by value
+	}
+	base := DMat{Name: 1, Pbr: 1, Met: 4, Rough: 2, Bc: 2, BTex: 1, MrTex: 2, NTex: 3, NScale: 4, OTex: 4, OStr: 6, Emis: 1, AMode: 2,
+		Cutoff: 3, Extras: 1, Exts: []DExt{{K: "transmission", F: 4, F2: -1, Tex: 5}, {K: "specular", F: 6, F2: -1, Tex: 0, Tex2: 5, Col: 3}}}
+	clone := func(m DMat) DMat { m.Exts = append([]DExt{}, m.Exts...); return m }
+	type mut struct {
+		name string
+		f    func(m *DMat)
+	}
+	muts := []mut{
+		{"name", func(m *DMat) { m.Name = 2 }}, {"noname", func(m *DMat) { m.Name = 0 }},
+		{"nopbr", func(m *DMat) { m.Pbr = 0 }}, {"met", func(m *DMat) { m.Met = 5 }}, {"nomet", func(m *DMat) { m.Met = -1 }},
+		{"rough", func(m *DMat) { m.Rough = 7 }}, {"bc", func(m *DMat) { m.Bc = 3 }}, {"nobc", func(m *DMat) { m.Bc = 0 }},
+		{"btex-sampler", func(m *DMat) { m.BTex = 7 }}, {"btex-image", func(m *DMat) { m.BTex = 8 }},
+		{"btex-transform", func(m *DMat) { m.BTex = 9 }}, {"nobtex", func(m *DMat) { m.BTex = 0 }},
+		{"mrtex", func(m *DMat) { m.MrTex = 5 }}, {"ntex", func(m *DMat) { m.NTex = 5 }}, {"nontex", func(m *DMat) { m.NTex = 0 }},
+		{"nscale", func(m *DMat) { m.NScale = 8 }}, {"otex", func(m *DMat) { m.OTex = 3 }}, {"nootex", func(m *DMat) { m.OTex = 0 }},
+		{"ostr", func(m *DMat) { m.OStr = -1 }}, {"emis", func(m *DMat) { m.Emis = 2 }}, {"noemis", func(m *DMat) { m.Emis = 0 }},
+		{"amode", func(m *DMat) { m.AMode, m.Cutoff = 3, -1 }}, {"cutoff", func(m *DMat) { m.Cutoff = 5 }},
+		{"nocutoff", func(m *DMat) { m.Cutoff = -1 }}, {"extras", func(m *DMat) { m.Extras = 2 }}, {"noextras", func(m *DMat) { m.Extras = 0 }},
+		{"ext-factor", func(m *DMat) { m.Exts[0].F = 5 }}, {"ext-tex", func(m *DMat) { m.Exts[0].Tex = 1 }},
+		{"ext-ptr-factor", func(m *DMat) { m.Exts[1].F = 7 }}, {"ext-colour", func(m *DMat) { m.Exts[1].Col = 1 }},
+		{"ext-tex2", func(m *DMat) { m.Exts[1].Tex2 = 0 }}, {"ext-dropped", func(m *DMat) { m.Exts = m.Exts[:1] }},
+		{"ext-order", func(m *DMat) { m.Exts[0], m.Exts[1] = m.Exts[1], m.Exts[0] }},
+		{"ext-added", func(m *DMat) { m.Exts = append(m.Exts, DExt{K: "unlit"}) }},
+	}
+	tri := DMesh{Topo: "triangle", Nv: 4, Ni: 6, Idx: []int{0, 1, 2, 2, 1, 3}, Attrs: []DAttr{{Ar: 3, Id: 1}, {Ar: 2, Id: 4}}, VSeed: 21}
+	pts := DMesh{Topo: "point", Nv: 2, Ni: 2, Idx: []int{1, 0}, Attrs: []DAttr{{Ar: 3, Id: 1}}, VSeed: 22}
+	noTrs := DTrs{T: []int{}, R: []int{}, S: []int{}}
+	scene := func(tag string, mats []DMat, models []DModel) Desc {
+		return Desc{Tag: tag, VMode: "lattice", Div: 8, Meshes: []DMesh{tri, pts}, Texs: texs, Mats: mats, Models: models,
+			Lights: []DLight{}, Kinds: []string{}, Risk: []string{}}
+	}
+	var out []Desc
+	for i, mu := range muts {
+		other := clone(base)
+		mu.f(&other)
+		first, second := 1, 2
+		if i%2 == 1 {
+			first, second = 2, 1
+		}
+		// same mesh pointer for both models, a third model repeats the first material
+		out = append(out, scene("pair-"+mu.name, []DMat{clone(base), other}, []DModel{
+			{Name: 1, Mesh: 1, Mat: first, Trs: noTrs, Inst: []DTrs{}}, {Name: 2, Mesh: 1 + i%2, Mat: second, Trs: noTrs, Inst: []DTrs{}},
+			{Name: 3, Mesh: 2, Mat: first, Trs: noTrs, Inst: []DTrs{}}}))
+	}
+	// equal by value under different pointers: same members, textures 6 and 10 instead of 1 and 5
+	twin := clone(base)
+	twin.BTex = 6
+	twin.Exts[0].Tex = 10
+	twin.Exts[1].Tex2 = 10
+	out = append(out, scene("twin", []DMat{clone(base), twin, clone(base)}, []DModel{
+		{Name: 1, Mesh: 1, Mat: 1, Trs: noTrs, Inst: []DTrs{}}, {Name: 2, Mesh: 1, Mat: 2, Trs: noTrs, Inst: []DTrs{}},
+		{Name: 3, Mesh: 2, Mat: 3, Trs: noTrs, Inst: []DTrs{}}, {Name: 4, Mesh: 2, Mat: 0, Trs: noTrs, Inst: []DTrs{}}}))
+	return out
+}
+
+// GenRandom writes the material pair scenes, n seeded scene descriptors and `big` threshold scenes.
 func GenRandom(out string, seed int64, n, maxv, big int) error {
 	fo, err := os.Create(out)
 	if err != nil {
@@ -213,6 +286,13 @@ func GenRandom(out string, seed int64, n, maxv, big int) error {
 	defer w.Flush()
 	enc := json.NewEncoder(w)
 	r := rand.New(rand.NewSource(seed))
+	if n > 0 {
+		for _, d := range pairScenes() {
+			if err := enc.Encode(d); err != nil {
+				return err
+			}
+		}
+	}
 	for i := 0; i < n; i++ {
 		if err := enc.Encode(randScene(r, maxv)); err != nil {
 			return err
